@@ -87,7 +87,7 @@ def enc_pop_state(pop):
 
 
 def main():
-    chk = Check('C18')
+    chk = Check('C18', extra_modules=['Bardolph.Proofs.SemSteps'])
     chk.lean_phase(sections=set())
     rng = chk.rng
     n = 8000 if chk.thorough else 1500
